@@ -1,13 +1,15 @@
 """C11 — timers and dispatch_after never fire early and always fire.
    Model/Heap.v (hand model of the timer double heap over Gen_timer index arithmetic), Model/TimerRun.v (compute_missed,
-   _dispatch_timers_run / program / configure / arm / disarm as a sequential state machine).  Tie: white-box harness
-   harness/c11_heap.c which #includes src/event/event.c and drives the static functions on private records."""
+   _dispatch_timers_run / program / configure / arm / disarm as a sequential state machine, plus the source side: the
+   rules of src/source.c for issuing them).  Tie: white-box harness harness/c11_heap.c which #includes src/event/event.c
+   and drives the static functions on private records; c11_cfg.c (#include source.c), c11_epoll.c (#include
+   event_epoll.c), c11_trace.c (recorded runs of the whole library replayed through the model), c11_e2e.c (public API)."""
 import os
 import common
 import driver
 
 PROPERTIES_FILE = "Properties/Properties_C11.v"
-COQ_DEPS = ["Proofs/Heap_proofs.vo", "Proofs/TimerRun_proofs.vo", "Proofs/TimerSys_proofs.vo"]
+COQ_DEPS = ["Proofs/Heap_proofs.vo", "Proofs/TimerRun_proofs.vo", "Proofs/TimerSys_proofs.vo", "Proofs/TimerSrc_proofs.vo"]
 GEN_MODULES = ["Gen_timer"]
 LEVEL = "proof"
 COQ_TIMEOUT = 2400
@@ -15,8 +17,42 @@ TRUSTED = [
     "Model/Heap.v and Model/TimerRun.v are hand-written; tied by running the library's own static functions "
     "(_dispatch_timer_heap_insert/remove/update, _dispatch_timer_unote_compute_missed, _dispatch_timers_run, "
     "_dispatch_timers_program, _dispatch_event_loop_drain_timers, _dispatch_timer_unote_configure/resume/unregister, "
-    "_dispatch_timer_config_create, _dispatch_after) on the same inputs / operation sequences and comparing the complete "
-    "state after every operation (white-box harnesses that #include src/event/event.c resp. src/source.c)",
+    "_dispatch_timer_config_create, _dispatch_interval_config_create, _dispatch_after) on the same inputs / operation "
+    "sequences and comparing the complete state after every operation, including whether the unote is registered "
+    "(white-box harnesses that #include src/event/event.c resp. src/source.c).  Masked in that comparison: cells of the "
+    "heap segments beyond dth_count that once held a segment pointer keep the stale pointer in the library and are "
+    "canonicalised to NULL before comparing (the library never reads them)",
+    "GRANULARITY / ATOMICITY (not proved): one model step is one whole C function, executed atomically "
+    "(one _dispatch_timers_run iteration, one _dispatch_source_latch_and_call with _dispatch_source_timer_data, one "
+    "_dispatch_timer_unote_configure ...), while in the library the manager thread, the thread draining the source and "
+    "client threads share ds_pending_data, dt_pending_config and dt_timer.  C11_count_bound, C11_latch_count, "
+    "C11_state_invariant, C11_always_fires and C11_after_at_most_once are theorems about interleavings of whole steps.  "
+    "Why this is taken to be adequate: every heap operation, _dispatch_timers_run, and configure / resume of an armed "
+    "timer run on the manager thread only (source.c:771-776 and :866-869 hop to the manager queue first; checked on every "
+    "recorded run, key trace:thread); ds_pending_data is only accessed atomically - manager: relaxed load event.c:1092, "
+    "os_atomic_or_orig :1094, stores :1062 :1105 :1109(release) :879; handler: os_atomic_xchg source.c:534 - and the one "
+    "window inside a step (load :1092, or_orig :1094) resolves to the model's latch-then-fire order because the run "
+    "continues with the value or_orig returned; dt_pending_config is exchanged atomically on both sides (source.c:1320, "
+    "event.c:870); dt_timer is written off the manager thread only by the handler's catch-up (source.c:505-526) and only "
+    "after it latched the DISARMED marker, i.e. while the timer is out of the heap and before the rearm of the same invoke "
+    "(source.c:866 after :801), ordered by the release store event.c:1109 / the dependency fence source.c:515.  No "
+    "weak-memory model backs this; the trace replay checks it on real multi-thread executions (each recorded "
+    "_dispatch_unote_resume / fire / latch sees exactly the state the atomic-step model predicts)",
+    "the latch differential of the white-box harness (command l, harness/c11_heap.c:225-237) runs a TRANSCRIPTION of "
+    "source.c:529-546 + 505-526, not source.c itself (event.c and source.c cannot be #included together).  source.c's "
+    "real latch is tied by the trace replay instead: harness/c11_trace.c links the library's own source.c, the "
+    "DISPATCH_VERIF hook records its os_atomic_xchg of ds_pending_data (source.c:534) with thread and value, the handler "
+    "records dispatch_source_get_data, and the state of the timer at the following _dispatch_unote_resume (target, "
+    "deadline after the catch-up of source.c:521) must equal the model's after `latch` (keys trace:latch-data, "
+    "trace:resume-state); the end-to-end oracle checks the reported counts of the real library against the boundaries",
+    "the source side (Model/TimerRun.v xstep: _dispatch_source_wakeup's test, the order of actions in "
+    "_dispatch_source_invoke2, where dx_wakeup is called) is modelled by reading src/source.c:715-975; tied by the trace "
+    "replay: every recorded _dispatch_unote_resume must find the model's timer satisfying invoke2's rearm condition "
+    "(registered, not armed, no configuration and no data pending, target < INT64_MAX: key trace:rearm-rule), every "
+    "configure / register / unregister is replayed where the library did it, and the e2e oracle checks that timers keep "
+    "firing across suspend/resume, set_timer and lagging handlers.  x_enq (\"a wakeup is pending\") abstracts the lane's "
+    "enqueue / DIRTY protocol: that an enqueued unsuspended source is eventually invoked and that a dx_wakeup racing with "
+    "an invoke is not lost belongs to C01/C04 and is NOT proved here; one XInvoke = one action of invoke2",
     "the segmented storage of the heap is modelled as a flat map; get_slot's cell computation is modelled separately "
     "(slot_addr), proved injective and in bounds, and compared with the addresses the library computes",
     "clock readings are parameters; in the white-box runs the manager's clock cache is faked, in the end-to-end runs the "
@@ -37,7 +73,11 @@ TRUSTED = [
 ASSUMPTIONS = ["at most 2^30 - 12 timer records (N with 2N + 2 <= capacity of 29 heap segments); index arithmetic is 32 bit",
                "clock values below 2^62 - 1 (Model/Time.v clocks_ok, as for C12) resp. below 2^63 for cached readings",
                "the manager thread runs _dispatch_event_loop_drain_timers whenever the dirty bits are set and when the programmed "
-               "timerfd expires (kernel, scheduler); within one call the clock readings are the cached ones (constant)"]
+               "timerfd expires (kernel, scheduler); within one call the clock readings are the cached ones (constant)",
+               "C11_always_fires: the lane invokes an enqueued, unsuspended source (x_enq; C01/C04), clients do not cancel a "
+               "source before activating it and do not suspend an inactive one (xguard), dispatch_after sources are never "
+               "cancelled or reconfigured (they are private to _dispatch_after)",
+               "whole C functions are atomic steps (see TRUSTED, GRANULARITY)"]
 
 U64 = 1 << 64
 I63 = (1 << 63) - 1
@@ -497,11 +537,64 @@ def check_cfg(ctx, mexe, mism, fails, dist, samples):
     dist["dispatch_after_kinds(dropped,async,timer)"] = [kinds[0], kinds[1], kinds[2]]
     dist["dispatch_after_out_of_range_when"] = wrap
     samples.append({"config_create": list(G[0]), "impl": obs[0]})
-    return len(G) + len(H) + len(J)
+    return len(G) + len(H) + len(J) + check_timer_data(ctx, exe, mexe, mism, dist)
 
 
 # ---------------------------------------------------------------------------------------------------------
 # kernel side of the timers (src/event/event_epoll.c), white-box harness c11_epoll.c
+
+def check_timer_data(ctx, exe, mexe, mism, dist):
+    """source.c's own _dispatch_source_timer_data (the handler-side catch-up, source.c:505-526) against the model's latch:
+       the white-box latch command of c11_heap.c is a transcription, this is the real function (real clock read inside)"""
+    rng = ctx.rng
+    n = 150 if ctx.tier == "quick" else 4000
+    cases = []
+    for _ in range(n):
+        clock = rng.below(3)
+        itv = rng.choice([1, 7, 1000, 10**6, 10**9, 3 * 10**9 + 1, I63 - 1, I63, UINT64_MAX, rng.range(1, 10**10)])
+        small = itv if itv < 10**12 else 10**9
+        back = rng.choice([0, 1, small - 1, small, small + 1, 10 * small + 3, 1000 * small, -5, -10**9, rng.range(0, 10**11)])
+        lee = rng.choice([0, 5, small // 2])
+        cnt = rng.choice([0, 1, 5, 1 << 40, rng.range(0, 1 << 20)])
+        absolute = rng.choice([0, 0, 0, 0, 0, 0, I63, I63 - 1, UINT64_MAX, 1, 12345])
+        if absolute:
+            lee = 0
+        cases.append((clock, back, lee, itv, (cnt << 1) | 1, absolute))
+    r = common.run([exe], input="\n".join("T %d %d %d %d %d %d" % c for c in cases) + "\n", timeout=300)
+    out = [l for l in r.stdout.split("\n") if l.strip()]
+    if r.returncode != 0 or len(out) != len(cases):
+        mism.append({"what": "harness run failed (_dispatch_source_timer_data)", "detail": {"rc": r.returncode, "lines": len(out), "err": (r.stderr or "")[-800:]}})
+        return 0
+    ml, obs = [], []
+    for c, l in zip(cases, out):
+        a, b = l.split("|")
+        tg, dl, data, tg2, dl2 = [int(x) for x in a.split()]
+        ck = [int(x) for x in b.split()]
+        obs.append((data, tg2, dl2))
+        for now in (ck[c[0]], ck[3 + c[0]]):
+            ml += ["N 1", "t 1 %d" % (c[0] << 2), "c 1 %d %d %d %d" % (c[0], tg, dl % U64, c[3]), "g 1", "p 1 %d" % c[4], "l 1 %d" % now, "S"]
+    m = common.run([mexe], input="\n".join(ml) + "\n", timeout=600)
+    mo = [[int(x) for x in l.split()] for l in m.stdout.split("\n") if l.strip()]
+    if m.returncode != 0 or len(mo) != 4 * len(cases):
+        mism.append({"what": "model driver failed (_dispatch_source_timer_data)", "detail": {"lines": len(mo), "err": (m.stderr or "")[-800:]}})
+        return 0
+    caught = moved = 0
+    for i, (c, o) in enumerate(zip(cases, obs)):
+        res = []
+        for k in (0, 1):
+            d = mo[4 * i + 2 * k][0]
+            stt = mo[4 * i + 2 * k + 1]
+            res.append((d, stt[16 + 2], stt[16 + 3]))
+        if o not in res:
+            mism.append({"what": "_dispatch_source_timer_data (src/source.c, the handler-side catch-up) differs from Model/TimerRun.v latch "
+                                 "(evaluated at the clock readings before and after the call)",
+                         "detail": {"clock,back,leeway,interval,prev,abs": list(c), "impl data,target,deadline": list(o), "model_before": list(res[0]), "model_after": list(res[1])}})
+        if o[0] != c[4] >> 1:
+            caught += 1
+    dist["timer_data_calls"] = len(cases)
+    dist["timer_data_catch_ups"] = caught
+    return len(cases)
+
 
 def check_epoll(ctx, mexe, mism, fails, dist, samples):
     exe, msg = common.build_harness("c11_epoll", ["c11_epoll.c"], whitebox=True, exclude_objs=("event_epoll.c.o",))
